@@ -1,0 +1,58 @@
+//go:build verif
+// +build verif
+
+package server
+
+// Add-only exports for the verification harness (build tag verif), properties
+// C31 (online reload) and C32 (two-phase namespace change).
+
+import (
+	"github.com/XiaoMi/Gaea/models"
+	"github.com/XiaoMi/Gaea/stats"
+)
+
+// VerifC31NewManager builds a Manager the way CreateManager does, but with a
+// StatisticManager that is not published to the process-wide metrics registry
+// (so that any number of managers can live in one process) and without the
+// periodic metrics task.
+func VerifC31NewManager(serverIdc string, namespaceConfigs map[string]*models.Namespace) (*Manager, error) {
+	m := NewManager()
+	labels := []string{statsLabelCluster, statsLabelNamespace, statsLabelSlice, statsLabelIPAddr, statsLabelRole}
+	m.statistics = &StatisticManager{
+		manager:                          m,
+		clusterName:                      "verif",
+		SQLResponsePercentile:            make(map[string]*SQLResponse),
+		backendConnectPoolIdleCounts:     stats.NewGaugesWithMultiLabels("", "", labels),
+		backendConnectPoolInUseCounts:    stats.NewGaugesWithMultiLabels("", "", labels),
+		backendConnectPoolWaitCounts:     stats.NewGaugesWithMultiLabels("", "", labels),
+		backendConnectPoolActiveCounts:   stats.NewGaugesWithMultiLabels("", "", labels),
+		backendConnectPoolCapacityCounts: stats.NewGaugesWithMultiLabels("", "", labels),
+		backendInstanceDownCounts:        stats.NewGaugesWithMultiLabels("", "", labels),
+	}
+	current, _, _ := m.switchIndex.Get()
+	m.namespaces[current] = CreateNamespaceManager(serverIdc, namespaceConfigs)
+	user, err := CreateUserManager(namespaceConfigs)
+	if err != nil {
+		return nil, err
+	}
+	m.users[current] = user
+	return m, nil
+}
+
+// VerifC31Close stops the health checks of every namespace either generation
+// still refers to (no delay, no statistics).
+func (m *Manager) VerifC31Close() {
+	for _, nm := range m.namespaces {
+		if nm == nil {
+			continue
+		}
+		for _, ns := range nm.namespaces {
+			ns.CloseCancel()
+		}
+	}
+}
+
+// VerifC31ReloadPrepared reports the pending-prepare flag.
+func (m *Manager) VerifC31ReloadPrepared() bool {
+	return m.reloadPrepared.Get()
+}
